@@ -112,6 +112,12 @@ class Flow(object):
             if isinstance(n, ast.Name) and isinstance(n.ctx, ast.Load):
                 if n.id not in names:
                     names.append(n.id)
+            elif isinstance(n, ast.Attribute) and isinstance(n.value, ast.Name) \
+                    and n.value.id == "self" and isinstance(n.ctx, ast.Load):
+                # self.<attr> assigned earlier in this very function
+                d = "self." + n.attr
+                if d not in names:
+                    names.append(d)
         for name in names:
             ds = self.defs(name, at)
             if not ds:
@@ -122,8 +128,18 @@ class Flow(object):
                 if rhs is None or dn.kind == "entry":
                     ok = False
                     break
-                if any(isinstance(x, ast.Name) and x.id == name
+                if any((isinstance(x, ast.Name) and x.id == name) or
+                       (isinstance(x, ast.Attribute) and dotted(x) == name)
                        for x in ast.walk(rhs)):
+                    # x = f(x): fine when the definition does not reach itself
+                    # (straight-line re-binding); refuse inside loops
+                    if dn.id in self.rd.get(dn.id, {}).get(name, ()):
+                        ok = False
+                        break
+                if isinstance(rhs, ast.Call) and isinstance(rhs.func, ast.Name) \
+                        and rhs.func.id[:1].isupper():
+                    # constructor call: an object with identity (Message(), ...) -
+                    # the name stays, it is not a value to substitute
                     ok = False
                     break
                 for sub in self.expand(rhs, dn, depth - 1):
@@ -166,6 +182,9 @@ def _subst(expr, name, rep):
         if not isinstance(n, ast.AST):
             return n
         if isinstance(n, ast.Name) and n.id == name and isinstance(n.ctx, ast.Load):
+            return clone(rep)
+        if isinstance(n, ast.Attribute) and isinstance(n.value, ast.Name) and \
+                n.value.id == "self" and "self." + n.attr == name and isinstance(n.ctx, ast.Load):
             return clone(rep)
         if isinstance(n, ast.Lambda):
             return clone(n)
